@@ -480,6 +480,19 @@ class ExtMixin:
             if attr == "decode":
                 return [(st, Unknown(ty="str")), (st.fork(), Raised("UnicodeError", node, fr.func))]
         bt = ty_of(base)
+        if attr == "index" and a:
+            items = self.seq_items(base, st) if not (isinstance(base, Const) and isinstance(base.v, (tuple, list))) else [self.lift(v_, st) for v_ in base.v]
+            if items is not None:
+                res = [self.compare(ast.Eq(), it_, a[0], st) for it_ in items]
+                for k_, r_ in enumerate(res):
+                    if r_ is True:
+                        return R(Const(k_))
+                    if r_ is None:
+                        break
+                else:
+                    return R(Raised("ValueError", node, fr.func, "value not in sequence"))
+            self.event(st, fr, "mayraise", node, ("index()", base))
+            return R(Sym(st.fresh_name("index"), "int", rng=(0, None)))
         if attr == "to_bytes" and a:
             n = const_of(a[0])
             iv = interval(base)
